@@ -348,6 +348,12 @@ def execute_one(plan):
         cl.topics[plan["acl"]].writable = False
         world.count_fault("topic_not_writable:" + plan["acl"])
     txm = cl.txns
+    if plan.get("c01_monitors"):
+        # the C01 request-ledger clauses hold for a transactional producer as well (never two
+        # batches of a partition in flight, consecutive sequences): same monitors, C01 verdicts
+        from props import producer_engine as _pe
+        _pe.InflightMonitor(world, cl)
+        _pe.SequenceMonitor(world, cl, {"producers": []})
     obs = {"txns": [], "calls": [], "notes": [], "records": {}}
     state = {"producers": {}, "specs": {}, "killed": set(), "alive": set(), "serial": itertools.count(1)}
     mon = ProtocolMonitor(world, cl, obs, prop)
